@@ -57,6 +57,7 @@ Snap(t, e) ==
 Step(e) ==
   CASE e.ev = "Connect"     -> Connect(e.s, e.t)
     [] e.ev = "Send"        -> SendLine(e.s, e.t, e.v, e.a, e.x, e.n)
+    [] e.ev = "Garbage"     -> Garbage(e.s, e.t)
     [] e.ev = "DataConnect" -> DataConnect(e.s, e.t)
     [] e.ev = "DataSend"    -> DataSend(e.s, e.t, e.data)
     [] e.ev = "DataEof"     -> DataEof(e.s, e.t)
